@@ -506,8 +506,8 @@ func c04KeyUse(c *Ctx, rb, rc string, handlers []*ssa.Function) {
 				case ssa.CallInstruction:
 					switch p.calleeName(x.Common()) {
 					case "internal/signinit.Init":
-						a := x.Common().Args[3]
-						c.Check(a == keyNameArg || fromKeyConf(a), rb, fname+" Init key-name", p.Pos(x.Pos()), "signinit.Init receives the key name that was authorized", "signinit.Init is called with a different key name than the one that was authorized")
+						a := actualOfType(x, "string")
+						c.Check(a != nil && (a == keyNameArg || fromKeyConf(a)), rb, fname+" Init key-name", p.Pos(x.Pos()), "signinit.Init receives the key name that was authorized", "signinit.Init is called with a different key name than the one that was authorized")
 					case "internal/signinit.InitKey":
 						a := x.Common().Args[2]
 						c.Check(a == keyNameArg || fromKeyConf(a), rb, fname+" InitKey key-name", p.Pos(x.Pos()), "InitKey receives the authorized key's name", "InitKey is called with a different key name than the one that was authorized")
@@ -836,6 +836,14 @@ func c04Identity(c *Ctx, rd string) {
 					continue
 				}
 				missing, path := p.unguardedFromEntry(ht, r, g)
+				if pred := containsPredicate(retVal(r, 0)); len(missing) > 0 && pred != nil {
+					// slices.ContainsFunc(nets, pred): true exactly when pred is true for some network
+					missing, path = nil, nil
+					for _, pr := range returnsOf(pred) {
+						m, _ := p.trueReturnMissing(pred, pr, 0, g)
+						missing = append(missing, m...)
+					}
+				}
 				c.Check(len(missing) == 0, rd, fmt.Sprintf("internal/realip.hopTrusted true-return#%d", i+1), p.Pos(r.Pos()), "true only for an address inside a configured network", "hopTrusted can return true for an address outside every configured network", path...)
 			}
 		}
@@ -1145,14 +1153,30 @@ func c04TrustConfig(c *Ctx) {
 	}
 	c.Check(okVerbatim && nParse >= 2, ri, "parseTrusted parses the configured strings verbatim", p.Pos(pt.Pos()), "", "a trusted_proxies entry is rewritten (string concatenation) before it is parsed: the network that ends up trusted is not the one that was configured")
 	okMask := true
-	nMask := 0
+	lens := map[int64]bool{}
 	for _, ci := range p.callsIn(pt, "net.CIDRMask") {
-		nMask++
-		ones, ok1 := constInt(ci.Common().Args[0])
-		bits, ok2 := constInt(ci.Common().Args[1])
-		if !ok1 || !ok2 || ones != bits {
+		a0, a1 := ci.Common().Args[0], ci.Common().Args[1]
+		ones, ok1 := constInt(a0)
+		bits, ok2 := constInt(a1)
+		switch {
+		case ok1 && ok2 && ones == bits:
+			lens[bits] = true
+		case a0 == a1:
+			// one variable for both arguments: every value it may hold is a full address length
+			for _, lf := range phiLeaves(a0, nil, map[*ssa.Phi]bool{}) {
+				if k, isK := constInt(lf.V); isK && (k == 32 || k == 128) {
+					lens[k] = true
+				} else {
+					okMask = false
+				}
+			}
+		default:
 			okMask = false
 		}
+	}
+	nMask := 0
+	if lens[32] && lens[128] && len(lens) == 2 {
+		nMask = 2
 	}
 	c.Check(okMask && nMask == 2, ri, "a bare proxy address becomes a single-host network of its family", p.Pos(pt.Pos()), "CIDRMask(32,32) / CIDRMask(128,128)", "a bare address in trusted_proxies is not given the full-length mask of its address family: more hosts than the configured one are trusted to assert client identities")
 	// every client entry's pool is a pool of its own, made where it is stored
